@@ -26,9 +26,7 @@ fn encode_lat(u: i32) -> (u32, u32) {
 }
 
 fn lat_e2e(parity: u32) {
-    let u = any_i32();
-    assume(u >= -U87 && u <= U87);
-    let (yz0, yz1) = encode_lat(u);
+    let (u, yz0, yz1) = draw_lat();
     let got = cpr_location(&[yz0, yz1], &[40000, 90000], parity, 1);
     let truth = u as f64 * (360.0 / KLAT as f64);
     let bin = 360.0 / 59.0 / 131072.0;
@@ -80,16 +78,21 @@ fn zone_mid_u(nl: i32, south: bool) -> i32 {
 fn lon_e2e(nl: i32, parity: u32) {
     let south = crate::verif::seed::SEED % 2 == 1;
     let (yz0, yz1) = encode_lat(zone_mid_u(nl, south));
-    // lon = 360 * v / KLON, KLON = NL*(NL-1)*2^19 (NL >= 2): lon/Dlon0 = v/((NL-1)*2^19), lon/Dlon1 = v/(NL*2^19)
+    // lon = 360 * v / KLON, KLON = NL*(NL-1)*2^19 (NL >= 2): lon/Dlon0 = v/((NL-1)*2^19), lon/Dlon1 = v/(NL*2^19).
+    // As for the latitude, the two encodings are drawn and tied to v by the division lemma:
+    //   v = 4*(NL-1) * (a0*2^17 + XZ0) + f0 = 4*NL * (a1*2^17 + XZ1) + f1,  |f_i| within half a step
     let n0 = nl as u32;
     let n1 = (nl - 1) as u32;
     let klon = n0 * n1 * (1u32 << 19);
-    let v = any_u32();
-    assume(v < klon);
-    let r0 = v % (n1 * (1u32 << 19));
-    let r1 = v % (n0 * (1u32 << 19));
-    let xz0 = ((r0 + n1 * 2) / (n1 * 4)) % (1 << 17);
-    let xz1 = ((r1 + n0 * 2) / (n0 * 4)) % (1 << 17);
+    let (a0, a1) = (any_below(n0), any_below(n1));
+    let (xz0, xz1) = (any_below(1 << 17), any_below(1 << 17));
+    let (f0, f1) = (any_i32(), any_i32());
+    assume(f0 >= -2 * (n1 as i32) && f0 < 2 * (n1 as i32) && f1 >= -2 * (n0 as i32) && f1 < 2 * (n0 as i32));
+    let vv = (4 * n1 * (a0 * (1 << 17) + xz0)) as i64 + f0 as i64;
+    assume(vv == (4 * n0 * (a1 * (1 << 17) + xz1)) as i64 + f1 as i64);
+    // a hair (half an encoding step, < 2 cm) next to 0/360 degrees is excluded: there the rounded field wraps
+    assume(vv >= 0 && vv < klon as i64);
+    let v = vv as u32;
     let got = cpr_location(&[yz0, yz1], &[xz0 as u32, xz1 as u32], parity, 1);
     let lon360 = v as f64 * (360.0 / klon as f64);
     let truth = if lon360 >= 180.0 { lon360 - 360.0 } else { lon360 };
@@ -122,3 +125,120 @@ macro_rules! lon_zone {
     };
 }
 include!("cpr_lon_gen.rs");
+
+// ---- compositional latitude half (quick tier) ----------------------------------------------------
+// The monolithic latitude harness above also executes the longitude half with a SYMBOLIC zone count
+// (float division by it, integer remainder by it) and does not finish in an hour. Split:
+//   * c08_lat_decode_*: `nl` replaced by a constant, so the longitude half is constant work and the
+//     latitude recovery (zone index j, both recovered latitudes, wrap) is decided for every latitude;
+//   * c08_zone_rule: `nl` replaced by a recorder with arbitrary answers: the pair is rejected iff the
+//     two answers differ, and `nl` is asked about the two recovered latitudes;
+//   * c08_leaf_nl: the real `nl` equals the DO-260B table;
+//   * c08_lon_nl*: the real decoder, real `nl`, concrete latitude, every longitude.
+pub static mut NL_RET: [i32; 2] = [10, 10];
+pub static mut NL_ARGS: [f64; 2] = [0.0; 2];
+pub static mut NL_CALLS: usize = 0;
+pub fn stub_nl(lat: f64) -> i32 {
+    unsafe {
+        let i = if NL_CALLS < 2 { NL_CALLS } else { 1 };
+        NL_ARGS[i] = lat;
+        NL_CALLS += 1;
+        NL_RET[i]
+    }
+}
+
+/// Draw a latitude together with its two CPR encodings WITHOUT division circuits (the solver stalls
+/// on decode(encode(u)) when encode uses `/` and `%`): the encoder's defining relation
+///   YZ_i = floor(2^17 * frac(lat / Dlat_i) + 1/2) mod 2^17
+/// is equivalent to  u = (4*(59+i)) * (k_i * 2^17 + YZ_i) + e_i  with  -2*(59+i) <= e_i < 2*(59+i),
+/// so (k_0, YZ_0, e_0, k_1, YZ_1, e_1) are drawn and constrained to describe the same u. Every u has
+/// such a representation, so quantifying over representations covers every latitude.
+fn draw_lat() -> (i32, u32, u32) {
+    let (k0, k1) = (any_i32(), any_i32());
+    assume(k0 >= -16 && k0 <= 15 && k1 >= -16 && k1 <= 15);
+    let (yz0, yz1) = (any_below(1 << 17) as i32, any_below(1 << 17) as i32);
+    let (e0, e1) = (any_i32(), any_i32());
+    assume(e0 >= -118 && e0 < 118 && e1 >= -120 && e1 < 120);
+    let u = 236 * (k0 * (1 << 17) + yz0) + e0;
+    assume(u == 240 * (k1 * (1 << 17) + yz1) + e1);
+    assume(u >= -U87 && u <= U87);
+    (u, yz0 as u32, yz1 as u32)
+}
+
+fn lat_decode(parity: u32) {
+    let (u, yz0, yz1) = draw_lat();
+    let got = cpr_location(&[yz0, yz1], &[40000, 90000], parity, 1);
+    let truth = u as f64 * (360.0 / KLAT as f64);
+    let bin = 360.0 / 59.0 / 131072.0;
+    vcover!(u < 0, "southern hemisphere");
+    vcover!(u > 0, "northern hemisphere");
+    match got {
+        Some((lat, _)) => {
+            let d = lat - truth;
+            vassert!(d <= bin && d >= -bin, "C08: decoded latitude is more than one CPR bin (5 m) away from the encoded latitude");
+        }
+        None => {
+            #[cfg(kani)]
+            vassert!(false, "C08: pair rejected although both latitudes are reported to be in the same zone");
+            #[cfg(not(kani))]
+            vassert!(nl_ref(truth - 2.0 * bin) != nl_ref(truth + 2.0 * bin), "C08: a pair encoding ONE position well inside a latitude zone is rejected");
+        }
+    }
+    #[cfg(kani)]
+    unsafe {
+        // nl() is consulted about the two recovered latitudes, both within a bin of the truth
+        vassert!(NL_CALLS == 2, "C08: the zone count is not looked up for both recovered latitudes");
+        let (d0, d1) = (NL_ARGS[0] - truth, NL_ARGS[1] - truth);
+        vassert!(d0 <= bin && d0 >= -bin && d1 <= bin && d1 >= -bin, "C08: a recovered latitude handed to NL() is more than a bin away from the encoded latitude");
+    }
+}
+
+// @harness props=C08 tier=quick cap=2400 needs=kfmod
+// latitude recovery for every latitude in 87S..87N (2 cm resolution), even frame newer; zone count stubbed constant
+#[cfg_attr(kani, kani::proof)]
+#[cfg_attr(kani, kani::unwind(60))]
+#[cfg_attr(kani, kani::stub(crate::decoder::adsb::position::nl, stub_nl))]
+#[cfg_attr(verif_replay, test)]
+fn c08_lat_decode_even_newer() {
+    lat_decode(0);
+}
+
+// @harness props=C08 tier=quick cap=2400 needs=kfmod
+// latitude recovery for every latitude in 87S..87N, odd frame newer (inexact 360/59 products)
+#[cfg_attr(kani, kani::proof)]
+#[cfg_attr(kani, kani::unwind(60))]
+#[cfg_attr(kani, kani::stub(crate::decoder::adsb::position::nl, stub_nl))]
+#[cfg_attr(verif_replay, test)]
+fn c08_lat_decode_odd_newer() {
+    lat_decode(1);
+}
+
+// @harness props=C08 tier=quick cap=1800 needs=kfmod
+// zone rule: for all 2^68 CPR fields, the pair is rejected iff NL of the two recovered latitudes differ
+// (NL as an arbitrary-answer recorder); airborne coefficient
+#[cfg_attr(kani, kani::proof)]
+#[cfg_attr(kani, kani::unwind(60))]
+#[cfg_attr(kani, kani::stub(crate::decoder::adsb::position::nl, stub_nl))]
+#[cfg_attr(verif_replay, test)]
+fn c08_zone_rule() {
+    let lat = [any_below(1 << 17), any_below(1 << 17)];
+    let lon = [any_below(1 << 17), any_below(1 << 17)];
+    let parity = any_below(2);
+    let (a, b) = (any_i32(), any_i32());
+    assume(a >= 1 && a <= 59 && b >= 1 && b <= 59);
+    unsafe {
+        NL_RET = [a, b];
+        NL_CALLS = 0;
+    }
+    let got = cpr_location(&lat, &lon, parity, 1);
+    #[cfg(kani)]
+    {
+        vcover!(a != b, "zone-straddling pair");
+        vcover!(a == b && a == 1, "polar cap pair");
+        vassert!(got.is_none() == (a != b), "C08: a pair is displayed although its two latitudes lie in different longitude-zone counts (or rejected although they agree)");
+    }
+    #[cfg(not(kani))]
+    {
+        let _ = got;
+    }
+}
